@@ -33,6 +33,9 @@ type Conn struct {
 	// Log of close events, shared with the peer (who finished first?)
 	events *[]string
 	ReadN  int
+	// EOFWithData: like crypto/tls, deliver the end of the stream together with
+	// the last bytes (Read returns n > 0 and io.EOF in the same call)
+	EOFWithData bool
 }
 
 var ErrClosed = errors.New("vnet: use of closed connection")
@@ -62,6 +65,9 @@ func (c *Conn) Read(p []byte) (int, error) {
 			c.rd.segs[0] = s[n:]
 		}
 		c.ReadN += n
+		if c.EOFWithData && len(c.rd.segs) == 0 && c.rd.closedW {
+			return n, io.EOF
+		}
 		return n, nil
 	}
 	return 0, io.EOF
@@ -146,6 +152,8 @@ type Env struct {
 	Accepted []*Conn // upstream ends of dialled connections
 	FailDial bool
 	UpAddr   net.Addr
+	// EOFWithData is applied to the proxy side of dialled connections
+	EOFWithData bool
 }
 
 func (e *Env) Dial(network, addr string) (net.Conn, error) {
@@ -159,6 +167,7 @@ func (e *Env) Dial(network, addr string) (net.Conn, error) {
 		up = &net.TCPAddr{IP: net.IPv4(10, 0, 0, 99), Port: 9000}
 	}
 	p, u := Pair("out", &net.TCPAddr{IP: net.IPv4(10, 0, 0, 1), Port: 40000 + e.Dials}, "upstream", up)
+	p.EOFWithData = e.EOFWithData
 	e.Accepted = append(e.Accepted, u)
 	return p, nil
 }
